@@ -20,6 +20,7 @@ func WriteTTF(tables []Table) []byte {
 	buffer := make([]byte, introLength)
 
 	writeTTFHeader(len(tables), buffer)
+	binary.BigEndian.PutUint32(buffer, uint32(sfntVersion(tables)))
 
 	tableOffset := introLength // the actual content will start after the header + table directory
 	for i, table := range tables {
@@ -51,6 +52,24 @@ func WriteTTF(tables []Table) []byte {
 	}
 
 	return buffer
+}
+
+// sfntVersion returns the version tag of the file: "OpenType fonts containing CFF data
+// (version 1 or 2) should use 'OTTO'", the ones with TrueType outlines (or no outlines) 0x00010000
+func sfntVersion(tables []Table) Tag {
+	hasCFF := false
+	for _, table := range tables {
+		switch table.Tag {
+		case MustNewTag("glyf"):
+			return TrueType
+		case MustNewTag("CFF "), MustNewTag("CFF2"):
+			hasCFF = true
+		}
+	}
+	if hasCFF {
+		return OpenType
+	}
+	return TrueType
 }
 
 // alignTable rounds an offset up to a multiple of 4:
